@@ -118,9 +118,20 @@ class C08(Check):
             # ... and the clock is stepped while the node lingers
             scn["clock_jumps"] = [{"t": 0.002 + rng2.random() * 0.8 * scn["knobs"].get("SLEEP_TIMER", 0.3),
                                    "delta": rng2.choice([-3600.0, -30.0, 45.0, 3600.0])}]
+        # a chatty application: one of its threads keeps submitting messages right through the end of the
+        # connection (while the DPR is answered, during the linger, after the reset ...), whatever the library
+        # answers to each call
+        rng3 = random.Random(rng2.getrandbits(48))
+        scn["chatty"] = None
+        if rng3.random() < 0.3:
+            scn["chatty"] = {"gap": rng3.choice([0.0005, 0.005, 0.05, 0.3]), "n": rng3.choice([10, 40])}
         return scn
 
     def shrink(self, scn):
+        if scn.get("chatty"):
+            c = copy.deepcopy(scn)
+            c["chatty"] = None
+            yield c
         if scn.get("eager_restart"):
             c = copy.deepcopy(scn)
             c["eager_restart"] = False
@@ -249,6 +260,20 @@ class C08(Check):
                     pass
             st["reached_point"] = True
             st["state_at_point"] = w.state()
+            if scn.get("chatty") and point in ("open_traffic", "open_parked", "closing", "open_idle", "open_backlog"):
+                def chatter():
+                    for i in range(scn["chatty"]["n"]):
+                        try:
+                            w.node.send_message(DiameterRequest(application_id=APP_ID, command_code=316, avps=[
+                                SessionIdAVP(("n;7;%d" % i).encode()), OriginHostAVP(NODE_HOST),
+                                OriginRealmAVP(NODE_REALM), DestinationRealmAVP(PEER_REALM)]))
+                        except BaseException as e:      # noqa  (library errors derive from BaseException)
+                            if type(e).__name__ in ("SimStop", "SimHang"):
+                                raise
+                        sim.sleep(scn["chatty"]["gap"])
+                    return "done"
+                w.call("chatter", chatter)
+                sim.probe("chatty_app")
             anchored = None
             if scn.get("anchor") and cause in ("peer_dpr", "peer_eof", "peer_rst", "non_cea"):
                 fired = []
@@ -550,6 +575,9 @@ class C08(Check):
         if not st["reached_point"]:
             return base_result(sim, [], summary={"note": "point not reached", "point": point},
                                extra={"faults": {}})
+        for iv in w.invariant_violations[:1]:
+            viol("the node reaches Closed [and] releases its sockets: whoever sees Closed may rely on the release",
+                 "closed-visible-before-release", iv)
         faults = {"cause:" + cause: 1, "point:" + point: 1,
                   "preemption_in_bromelia_code": sim.preempt_line + sim.preempt_opcode}
         return base_result(sim, violations, summary={k: v for k, v in st.items()},
